@@ -1563,6 +1563,57 @@ _CTOR_FLOORS = {
 for _tier in ('quick', 'thorough'):
     FLOORS[_tier]['counters'].update(_CTOR_FLOORS[_tier]['counters'])
     FLOORS[_tier]['monitors'].update(_CTOR_FLOORS[_tier]['monitors'])
+# EQ-FLOORS (equality protocol of the exposed records; single-record fields / parse -> dump -> parse stability): 50 % of the
+# measured minimum over VERIF_SEED 0..3 (quick) / of seed 0 (thorough), two digits kept, measured counters only where the
+# minimum is >= 40 / 60.  No floor on the library's own answers (eq:other-case-names:equal / unequal,
+# stable:built:*-reparsed-as-*).  The enumerated (configuration, field, shape) counters one:* are floored in _enum_floors().
+# A run that never compares a record with == or never re-dumps a re-parsed one-record field is INCONCLUSIVE, not held.
+_EQ_FLOORS = {
+    'quick': {
+        'monitors': {'M.eq': 38000, 'M.eq.cmp': 360000, 'M.eq.full': 16000, 'M.eq.two-parses': 12000, 'M.one': 200,
+                     'M.stable': 9100, 'M.stable.one-record': 11000, 'M.stable.redump-with-one-record-field': 6900},
+        'counters': {'build:bare-record-value': 840, 'build:bare-record-value:BuildInfo': 69,
+                     'build:bare-record-value:Changes': 69, 'build:bare-record-value:Dsc': 65,
+                     'build:bare-record-value:PdiffIndex': 480, 'build:bare-record-value:Release-apt-ftparchive': 72,
+                     'build:bare-record-value:Release-dak': 65, 'eq:differs-in:first-column': 5500,
+                     'eq:differs-in:last-column': 5100, 'eq:differs-in:middle-column': 200, 'eq:differs-in:size':
+                     5500, 'eq:field-value:bare-record:reversed-key-order:dicts==value': 750,
+                     'eq:field-value:bare-record:reversed-key-order:value==dicts': 730,
+                     'eq:field-value:bare-record:shuffled-key-order:dicts==value': 740,
+                     'eq:field-value:bare-record:shuffled-key-order:value==dicts': 710,
+                     'eq:field-value:list:reversed-key-order:dicts==value': 8700,
+                     'eq:field-value:list:reversed-key-order:value==dicts': 8700,
+                     'eq:field-value:list:shuffled-key-order:dicts==value': 8800,
+                     'eq:field-value:list:shuffled-key-order:value==dicts': 8700, 'eq:list:differing-dict-not-in':
+                     7500, 'eq:list:differs-in-one-sub-field-of-one-record': 7500, 'eq:list:in+index': 15000,
+                     'eq:other-case-names:probed': 4100, 'eq:record:against-Deb822Dict-from-reversed-pairs': 4100,
+                     'eq:record:column-key-order': 16000, 'eq:record:columns:2': 880, 'eq:record:columns:3': 15000,
+                     'eq:record:columns:5': 520, 'eq:record:reversed-key-order': 16000,
+                     'eq:record:shuffled-key-order': 16000, 'eq:stage:parsed': 9800,
+                     'eq:stage:reparsed-dump-of-built-object': 13000, 'eq:stage:reparsed-dump-of-parsed-object':
+                     14000, 'eq:two-parses:dumped-text-twice': 2700, 'eq:two-parses:same-text-twice': 1000,
+                     'eq:two-parses:text-and-its-dump': 8800, 'one:case': 200,
+                     'stable:built-as:bare-record:one-record': 840, 'stable:built-as:list': 12000,
+                     'stable:built-as:list:one-record': 3400, 'stable:built:BuildInfo:bare-record': 69,
+                     'stable:built:BuildInfo:list': 250, 'stable:built:Changes:bare-record': 69,
+                     'stable:built:Changes:list': 260, 'stable:built:Dsc:bare-record': 65, 'stable:built:Dsc:list':
+                     230, 'stable:built:PdiffIndex:bare-record': 480, 'stable:built:PdiffIndex:list': 2100,
+                     'stable:built:Release-apt-ftparchive:bare-record': 72,
+                     'stable:built:Release-apt-ftparchive:list': 230, 'stable:built:Release-dak:bare-record': 65,
+                     'stable:built:Release-dak:list': 230, 'stable:parsed:BuildInfo:bare-record': 270,
+                     'stable:parsed:BuildInfo:list': 250, 'stable:parsed:Changes:bare-record': 290,
+                     'stable:parsed:Changes:list': 250, 'stable:parsed:Dsc:bare-record': 250,
+                     'stable:parsed:Dsc:list': 240, 'stable:parsed:PdiffIndex:bare-record': 2300,
+                     'stable:parsed:PdiffIndex:list': 1700, 'stable:parsed:Release-apt-ftparchive:bare-record': 270,
+                     'stable:parsed:Release-apt-ftparchive:list': 250, 'stable:parsed:Release-dak:bare-record': 270,
+                     'stable:parsed:Release-dak:list': 250, 'stable:text-layout:mixed': 5000,
+                     'stable:text-layout:multi': 10000, 'stable:text-layout:multi:one-record': 3000,
+                     'stable:text-layout:single:one-record': 3700}},
+    'thorough': {'monitors': {}, 'counters': {}},
+}
+for _tier in ('quick', 'thorough'):
+    FLOORS[_tier]['counters'].update(_EQ_FLOORS[_tier]['counters'])
+    FLOORS[_tier]['monitors'].update(_EQ_FLOORS[_tier]['monitors'])
 # MIXED-FLOORS: the enumerated mixed-layout class is deterministic - every structured field of every configuration
 # is parsed MIXED_REPS x {2, 3, 4 records} times (Release: x 2 behaviours); demand half of that per field, so a
 # run that does not drive the mixed layout for SOME field of SOME class is INCONCLUSIVE, not held.
